@@ -1013,7 +1013,8 @@ def main():
                       "the union-find table; no behaviour depends on them), and (round 11, commit 746a7e5) in "
                       "crates/compiler/src/typer/toplevel.rs a thread-local observer `verif_set_fn_observer` that `typecheck_fn` calls through three "
                       "`#[cfg(goml_verif)]` statements (at entry, before `solve`, after `solve`; it only reads) plus `verif_ty_from_hir`, re-exported "
-                      "from typer/mod.rs. Everything else links the crates in /repo by path unguarded.",
+                      "from typer/mod.rs; commit 85f7995: `typecheck_impl_block` calls the same observer for every method (phases 10-12) and "
+                      "`verif_impl_generics()` reads the impl's type parameters. Everything else links the crates in /repo by path unguarded.",
             "baseline_off_cmd": "cd /repo && cargo nextest run --workspace --no-fail-fast --offline --test-threads 8 || cargo test --workspace --no-fail-fast --offline",
             "source_commits": HOOK_COMMITS,
             "add_only": True,
